@@ -206,6 +206,15 @@ def run_table_truth(chk, spec):
 	try:
 		names, cols = spec["names"], spec["cols"]
 		t = Table([Vector(list(c), name=nm) for c, nm in zip(cols, names)])
+		if spec.get("zero_rows_via") and cols and len(cols[0]):
+			# a typed table from which every row was selected away keeps its columns and their dtypes
+			n0 = len(cols[0])
+			z = call({"slice": lambda: t[0:0], "slice-end": lambda: t[n0:], "mask": lambda: t[[False] * n0], "mask-vector": lambda: t[Vector([False] * n0)]}[spec["zero_rows_via"]])
+			if not z.ok or not isinstance(z.value, Table) or len(z.value.cols()) != len(cols):
+				chk.skip("zero-row-selection-unavailable")
+				return
+			t = z.value
+			cols = [[] for _ in cols]
 		if spec.get("override") is not None:
 			t._repr_rows = spec["override"]
 		before = snap(t)
@@ -311,6 +320,26 @@ def run_table_truth(chk, spec):
 		display.set_repr_rows(None)
 
 
+class Tag(str):
+	"""a str subclass that changes nothing (its repr is the string's)"""
+
+
+def run_strsub(chk, spec):
+	"""instances of str subclasses are strings: an object column / table shows them exactly as it shows a plain str with the same text"""
+	vals = [Tag(x[1]) if isinstance(x, tuple) else x for x in spec["values"]]
+	plain = [str(x) if isinstance(x, str) else x for x in vals]
+	chk.judged("vector-truth", ("strsub", spec["obj"], len(vals)))
+	if spec["obj"] == "vector":
+		a, b = call(lambda: repr(Vector(list(vals), name="nm"))), call(lambda: repr(Vector(list(plain), name="nm")))
+	else:
+		a, b = call(lambda: repr(Table([Vector(list(vals), name="a"), Vector(list(range(len(vals))), name="b")]))), call(lambda: repr(Table([Vector(list(plain), name="a"), Vector(list(range(len(vals))), name="b")])))
+	if not a.ok:
+		chk.fail("repr never raises", f"repr/raises/{spec['obj']}/str-subclass/{type(a.exc).__name__}", f"{spec!r} raised {a!r}")
+		return
+	if b.ok and a.value != b.value:
+		chk.fail("repr never misstates data (a str-subclass instance is shown like the string it is)", f"repr/{spec['obj']}-cell/str-subclass-shown-differently", f"{spec!r}:\n{a.value}\n--- with plain strings ---\n{b.value}")
+
+
 def run_total(chk, spec):
 	setup_limits(spec)
 	try:
@@ -340,7 +369,7 @@ def run_total(chk, spec):
 		display.set_repr_rows(None)
 
 
-RUNNERS = {"vector_truth": run_vector_truth, "table_truth": run_table_truth, "total": run_total}
+RUNNERS = {"strsub": run_strsub, "vector_truth": run_vector_truth, "table_truth": run_table_truth, "total": run_total}
 RUNNERS["recompute"] = recompute.runner("C20")
 
 SIMPLE = {
@@ -434,8 +463,14 @@ def run(chk):
 						names = [nm.upper() + "x" for nm in NAMES_SIMPLE[:ncols]]
 					else:
 						names = [None] * ncols
+					if nrows and rng.random() < 0.25:
+						chk.case("table_truth", {"names": names, "cols": cols, "limit": limit, "override": override, "simple": True, "zero_rows_via": rng.choice(["slice", "slice-end", "mask", "mask-vector"]),
+							"namepat": namepat, "dtpat": dtpat, "polluter": None}, "table-truth-zero-rows")
 					chk.case("table_truth", {"names": names, "cols": cols, "limit": limit, "override": override, "simple": True,
 						"namepat": namepat, "dtpat": dtpat, "polluter": rng.choice([None, None, "empty-peek", "zero-col-override", "table-override", "vector-long", "failing"])}, "table-truth")
+	for vals in ([("tag", "7"), 7, ("tag", "x y"), 2.5], [("tag", "a"), None, 3], [("tag", ""), ("tag", "None"), 0], [1, ("tag", "1")]):
+		for obj in ("vector", "table"):
+			chk.case("strsub", {"values": vals, "obj": obj}, "strsub")
 	# ---- totality
 	for kind, pool in HOSTILE.items():
 		for n in (1, 2, 5, 13, 30):
